@@ -49,6 +49,45 @@ func quickTokens() []string {
 // record-type classes that select distinct enrichment paths
 var typeClasses = []uint16{1400 /*AVC*/, 1006 /*LOGIN*/, 1104 /*CRED_DISP*/, 1105 /*USER_START*/, 1106 /*USER_END*/, 1326 /*SECCOMP*/, 1300 /*SYSCALL*/, 1306 /*SOCKADDR*/, 1327 /*PROCTITLE*/, 1123 /*USER_CMD*/, 1319 /*TTY*/, 1124 /*USER_TTY*/, 1309 /*EXECVE*/, 1302 /*PATH*/, 1112 /*USER_LOGIN*/, 1307 /*CWD: other*/}
 
+// ring keeps the last few messages that decoded something together with a
+// deep (byte-cloned) snapshot of what they reported; each is re-checked when it
+// is evicted, i.e. after several OTHER messages have been parsed in between:
+// "repeated calls on the same message return the same result" must also hold
+// across other parses (shared scratch buffers, pooled memory, global state).
+type held struct {
+	m    *auparse.AuditMessage
+	snap map[string]string
+	tags []string
+	what string
+}
+
+var ring [8]*held
+var ringPos int
+
+func cloneMap(m map[string]string) map[string]string {
+	out := make(map[string]string, len(m))
+	for k, v := range m {
+		out[strings.Clone(k)] = strings.Clone(v)
+	}
+	return out
+}
+
+func remember(c *enumx.Ctx, m *auparse.AuditMessage, d map[string]string, tags []string, what string) {
+	if old := ring[ringPos]; old != nil {
+		d2, _ := old.m.Data()
+		t2, _ := old.m.Tags()
+		if !reflect.DeepEqual(nz(d2), old.snap) || !reflect.DeepEqual(append([]string{}, t2...), old.tags) {
+			c.Report("C05 data-changed-after-other-parses", fmt.Sprintf("%s reported %v / tags %v; after parsing %d other messages (the last: %s) it reports %v / tags %v", old.what, old.snap, old.tags, len(ring), what, d2, t2), nil)
+		}
+	}
+	var tc []string
+	for _, t := range tags {
+		tc = append(tc, strings.Clone(t))
+	}
+	ring[ringPos] = &held{m: m, snap: cloneMap(d), tags: append([]string{}, tc...), what: what}
+	ringPos = (ringPos + 1) % len(ring)
+}
+
 // exercise runs the totality oracle on one message.
 func exercise(c *enumx.Ctx, m *auparse.AuditMessage, what string) {
 	d1, e1 := m.Data()
@@ -80,6 +119,7 @@ func exercise(c *enumx.Ctx, m *auparse.AuditMessage, what string) {
 		}
 	} else if len(d1) > 0 {
 		c.Nontrivial()
+		remember(c, m, d1, t1c, what)
 	}
 }
 
